@@ -355,7 +355,7 @@ class ReferenceRepresentation(Representation):
 
         :param k: the desired order
         :returns: a set of simplices, which may be empty"""
-        if k <= self.maxOrder():
+        if 0 <= k <= self.maxOrder():
             return list(self._indices[k])
         else:
             return list()
